@@ -377,14 +377,14 @@ PROPS["C16"] = {
     "bounds": {
         "quick": "self-composition: each operation is run twice from two clones of ONE symbolic 6-word tape (then all-ones): equal results (identity for selectors) and equal generator "
                  "states (cursor and per-entry-point call counters); and twice on one operator value vs on fresh values (no hidden state); populations / genomes of 3 symbolic "
-                 "elements, symbolic rates / weights 0..=3. Input declaration / hash-map order: MIR engine (z3): N <= 4 declared inputs (pairwise distinct SYMBOLIC names, symbolic values, int/bool/float mixes) bound through the generated builder methods, build(), then one with_input of a SYMBOLIC name (equal to any declared name or to none) under EVERY iteration order of the hash map (n! orders, fork per order): exactly the instruction bound to the queried name is performed; an undeclared name reaches the documented panic",
-        "thorough": "same Kani harnesses; MIR engine (z3): N <= 5 declared inputs (pairwise distinct SYMBOLIC names, symbolic values, int/bool/float mixes) bound through the generated builder methods, build(), then one with_input of a SYMBOLIC name (equal to any declared name or to none) under EVERY iteration order of the hash map (n! orders, fork per order): exactly the instruction bound to the queried name is performed; an undeclared name reaches the documented panic",
+                 "elements, symbolic rates / weights 0..=3. Input declaration / hash-map order: MIR engine (z3): N <= 4 declared inputs (pairwise distinct SYMBOLIC names = strings of 1..=2 alphanumeric ASCII bytes with symbolic length and bytes, symbolic values, int/bool/float mixes) bound through the generated builder methods, build(), then one with_input of a SYMBOLIC name (equal to any declared name or to none) under EVERY iteration order of the hash map (n! orders, fork per order): exactly the instruction bound to the queried name is performed; an undeclared name reaches the documented panic",
+        "thorough": "same Kani harnesses; MIR engine (z3): N <= 5 declared inputs (pairwise distinct SYMBOLIC names = strings of 1..=2 alphanumeric ASCII bytes with symbolic length and bytes, symbolic values, int/bool/float mixes) bound through the generated builder methods, build(), then one with_input of a SYMBOLIC name (equal to any declared name or to none) under EVERY iteration order of the hash map (n! orders, fork per order): exactly the instruction bound to the queried name is performed; an undeclared name reaches the documented panic",
     },
     "outside": "hash-map iteration order anywhere else than the input lookup (none found: input_instructions is the only HashMap in the library crates); more than one lookup per state (the map is never modified by a lookup); Generation::serial_next / par_next (rand::rng(): see C09); "
                "lexicase with >= 2 cases (C08), Plushy parsing (C05), UMAD on non-empty parents (solver budget, see C11); Push run_to_completion determinism beyond single steps "
                "(single steps are functional by the C01 STEP lemma); streams longer than 6 words. A library function reaching thread-local / OS randomness is not a failed "
                "assertion here but a harness that no longer compiles or links under Kani (reported as inconclusive, exit 2)",
-    "assumptions": ["TapeRng models 'equal generator states': same tape, same cursor, same call counters", "bin/mirinput: rustc MIR (nightly, -Zunpretty=mir) is the semantics of the source; callee models (not executed): HashMap::insert = finite map, HashMap::iter = any order of the entries, Iterator::find_map = call the closure per entry in that order, <Arc<str> as PartialEq>::eq = identity of the name, bool::then_some, Option::unwrap_or_else, Clone of PushInstruction = identity, Instruction::perform recorded (its effect is C01); an unknown statement or callee makes the run inconclusive (exit 2), never a pass"],
+    "assumptions": ["TapeRng models 'equal generator states': same tape, same cursor, same call counters", "bin/mirinput: rustc MIR (nightly, -Zunpretty=mir) is the semantics of the source; callee models (not executed): HashMap::insert = finite map, HashMap::iter = any order of the entries, Iterator::find_map = call the closure per entry in that order, <Arc<str> as PartialEq>::eq = same length and same bytes (z3), str::bytes / zip / all / len / eq_ignore_ascii_case on the same symbolic bytes, bool::then_some, Option::unwrap_or_else, Clone of PushInstruction = identity, Instruction::perform recorded (its effect is C01); an unknown statement or callee makes the run inconclusive (exit 2), never a pass"],
     "has_thorough_harnesses": False,
 }
 
@@ -449,14 +449,14 @@ PROPS["C19"] = {
         "quick": "value lists of lengths (0,0),(1,2),(3,1),(2,3) for int/bool plus one float with symbolic contents, each with a maximum that fits and one that does not: "
                  "first supplied value on top, contents exact, Overflow exactly when a list is longer than the maximum; symbolic global / individual int maximum in both call orders: last one set wins; "
                  "programs of 0,1,3 sentinel elements with a symbolic maximum: first element on top of exec, Overflow when too long; step limit stored; every accessor addresses the field of its element type. "
-                 "Lengths and the maximum are per-harness constants (fit / overflow instances), values symbolic. Named inputs: MIR engine (z3): N <= 4 declared inputs (pairwise distinct SYMBOLIC names, symbolic values, int/bool/float mixes) bound through the generated builder methods, build(), then one with_input of a SYMBOLIC name (equal to any declared name or to none) under EVERY iteration order of the hash map (n! orders, fork per order): exactly the instruction bound to the queried name is performed; an undeclared name reaches the documented panic",
-        "thorough": "same Kani harnesses; MIR engine (z3): N <= 5 declared inputs (pairwise distinct SYMBOLIC names, symbolic values, int/bool/float mixes) bound through the generated builder methods, build(), then one with_input of a SYMBOLIC name (equal to any declared name or to none) under EVERY iteration order of the hash map (n! orders, fork per order): exactly the instruction bound to the queried name is performed; an undeclared name reaches the documented panic",
+                 "Lengths and the maximum are per-harness constants (fit / overflow instances), values symbolic. Named inputs: MIR engine (z3): N <= 4 declared inputs (pairwise distinct SYMBOLIC names = strings of 1..=2 alphanumeric ASCII bytes with symbolic length and bytes, symbolic values, int/bool/float mixes) bound through the generated builder methods, build(), then one with_input of a SYMBOLIC name (equal to any declared name or to none) under EVERY iteration order of the hash map (n! orders, fork per order): exactly the instruction bound to the queried name is performed; an undeclared name reaches the documented panic",
+        "thorough": "same Kani harnesses; MIR engine (z3): N <= 5 declared inputs (pairwise distinct SYMBOLIC names = strings of 1..=2 alphanumeric ASCII bytes with symbolic length and bytes, symbolic values, int/bool/float mixes) bound through the generated builder methods, build(), then one with_input of a SYMBOLIC name (equal to any declared name or to none) under EVERY iteration order of the hash map (n! orders, fork per order): exactly the instruction bound to the queried name is performed; an undeclared name reaches the documented panic",
     },
     "outside": "the compile-time clauses (incomplete builders cannot be built; a stack's size cannot change after values were loaded) are decided by rustc's type checker, not by a solver: NOT claimed; "
                "the named-inputs clause under Kani (std HashMap: two inserts plus one lookup exceed 25 min under CBMC) - it is decided on the MIR instead, with HashMap::insert / iter replaced by their contracts; "
                "state structs other than PushState (a second #[push_state] struct with foreign element types does not compile outside the push crate: E0119); value lists longer than 3; "
                "HashMap iteration order (RandomState stubbed with fixed keys)",
-    "assumptions": ["std::hash::RandomState::new is stubbed with fixed SipHash keys (no OS entropy under Kani)", "bin/mirinput: rustc MIR (nightly, -Zunpretty=mir) is the semantics of the source; callee models (not executed): HashMap::insert = finite map, HashMap::iter = any order of the entries, Iterator::find_map = call the closure per entry in that order, <Arc<str> as PartialEq>::eq = identity of the name, bool::then_some, Option::unwrap_or_else, Clone of PushInstruction = identity, Instruction::perform recorded (its effect is C01); an unknown statement or callee makes the run inconclusive (exit 2), never a pass"],
+    "assumptions": ["std::hash::RandomState::new is stubbed with fixed SipHash keys (no OS entropy under Kani)", "bin/mirinput: rustc MIR (nightly, -Zunpretty=mir) is the semantics of the source; callee models (not executed): HashMap::insert = finite map, HashMap::iter = any order of the entries, Iterator::find_map = call the closure per entry in that order, <Arc<str> as PartialEq>::eq = same length and same bytes (z3), str::bytes / zip / all / len / eq_ignore_ascii_case on the same symbolic bytes, bool::then_some, Option::unwrap_or_else, Clone of PushInstruction = identity, Instruction::perform recorded (its effect is C01); an unknown statement or callee makes the run inconclusive (exit 2), never a pass"],
     "unwindset_by_harness": [("^c19_", [(r"drop_glueNtNtNt\w+_4push7push_vm7program11PushProgramE", 1), (r"drop_glueSNtNtNt\w+_4push7push_vm7program11PushProgramE", 4)])],
 }
 
